@@ -167,25 +167,8 @@ pub fn check_script(s: &Script, ctx: &Ctx, st: &mut Stats) -> Result<(), String>
     };
     let mut srv = Server::default();
     let mut state_changes = 0u32;
-    let mut judge = |f: Vec<Finding>, i: usize, what: &str, st: &mut Stats| -> Result<bool, String> {
-        for x in f {
-            let in_focus = x.tags.contains(&"C08");
-            if let Some(sig) = x.known {
-                if in_focus && ctx.is_known(sig) {
-                    st.known(sig);
-                    continue;
-                }
-                if !in_focus {
-                    continue;
-                }
-            }
-            if in_focus {
-                return Err(format!("[{}] exchange {} {}: {}", x.tags.join(","), i, what, x.msg));
-            }
-            st.class(&format!("diverged-outside-focus:{}", x.tags.join(",")));
-            return Ok(false);
-        }
-        Ok(true)
+    let judge = |f: Vec<Finding>, i: usize, what: &str, st: &mut Stats| -> Result<bool, String> {
+        judge_findings(f, &["C08"], ctx, st).map_err(|(tags, msg)| format!("[{}] exchange {} {}: {}", tags, i, what, msg))
     };
     for (i, ex) in s.exchanges.iter().enumerate() {
         sim.now += 20_000_000;
